@@ -13,11 +13,11 @@ const (
 
 type regionInfo struct {
 	allocType  suballocationType
-	allocCount uint16
+	allocCount uint32
 }
 
 type validationContext struct {
-	regionAllocs []uint16
+	regionAllocs []uint32
 }
 
 type blockBufferImageGranularity struct {
@@ -181,7 +181,7 @@ func (g *blockBufferImageGranularity) StartValidation() any {
 	context := &validationContext{}
 
 	if g.IsEnabled() {
-		context.regionAllocs = make([]uint16, len(g.regionInfo))
+		context.regionAllocs = make([]uint32, len(g.regionInfo))
 	}
 
 	return context
